@@ -1014,6 +1014,16 @@ M("C18", "cmn repr: import bound dropped", "src/cmn.c", """    while (nvals < cm
            && (cc = strchr(c, ',')) != NULL) {""", """    while ((cc = strchr(c, ',')) != NULL) {""", "REPR")
 
 # ---- C17 ----------------------------------------------------------------------
+M("C17", "mdef: phone names walked with strlen again", "src/bin_mdef.c", """        nul = memchr(m->ciname[i - 1], '\\0', data_end - m->ciname[i - 1]);
+        if (nul == NULL) {
+            E_ERROR("ciname truncated!\\n");
+            goto error_out;
+        }
+        m->ciname[i] = nul + 1;""", """        m->ciname[i] = m->ciname[i - 1] + strlen(m->ciname[i - 1]) + 1;
+        if (m->ciname[i] > data_end) {
+            E_ERROR("ciname truncated!\\n");
+            goto error_out;
+        }""", "SPAN.model-text")
 M("C17", "acmod_free: scorer released without the NULL test", "src/acmod.c", """    if (acmod->mgau) /* FIXME: Should make this transparent */
         ps_mgau_free(acmod->mgau);""", """    ps_mgau_free(acmod->mgau);""", "UNWIND.partial")
 M("C17", "mdef: phone truncation test only for mapped files", "src/bin_mdef.c", "    if ((m->phone + m->n_phone) > (mdef_entry_t *)data_end) {", "    if (m->alloc_mode == BIN_MDEF_ON_DISK\n        && (m->phone + m->n_phone) > (mdef_entry_t *)data_end) {", "REGION.checked")
